@@ -1,12 +1,20 @@
 /* C18 implementation driver.  One case = one (instance, fault set):
  *     inst <name> <id>
  *     fill <hex byte>           (optional: byte the object storage is filled with before the constructor; default 00)
+ *     mode retry                (optional: after a reported failure the operation is RETRIED without faults and the
+ *                                object is used further before destroy runs; default: destroy follows the failure)
  *     faults k1 k2 ...          (1-based indexes of the acquisition calls that fail; may be empty)
  * The object is pre-built without faults where the instance says so, the
  * operation runs with the faults armed, then the matching destroy runs.
  * Output (compared with the model, judged by the monitor):
  *     pre live=<blocks+fds held by the pre-built object>
  *     op rc=<ok|fail> att=<calls attempted> live=<blocks+fds still held>
+ *     unchanged <yes|NO ..>    (after a reported failure: the object's struct, its arrays and its contents are
+ *                               byte-for-byte / element-for-element what they were before the call)
+ *     retry rc=<ok|fail>       (mode retry, after a reported failure)
+ *     cont rc=<ok|fail> live=<..>   (instances with continued use, once the operation or its retry succeeded:
+ *                               more pushes / inserts / allocs up to and beyond the old capacity, contents compared
+ *                               with the reference)
  *     destroy live=<..>     |  destroy skipped live=<..>
  * Caller-provided object storage is filled with the `fill` byte (00 or A5) before the constructor runs.
  * A crash (sanitizer report, signal) or a hang (watchdog) ends the process
@@ -56,6 +64,51 @@ static muggle_log_file_handler_t g_lfh;
 static muggle_log_file_rotate_handler_t g_lrh;
 static char g_logpath[600];
 static int g_keys[8] = { 10, 20, 30, 40, 50, 60, 70, 80 };
+static int g_more[32];                 /* extra keys 1000.. used by the continued-use phase */
+static const char *g_mkeys[4] = { "x", "y", "xa", "yb" };
+#if MUGGLE_SUPPORT_FAST_FLOW_CONTROLLER
+static muggle_fast_flow_controller_t g_ffc;
+#endif
+static muggle_log_file_time_rot_handler_t g_ltr;
+static muggle_log_console_handler_t g_lch;
+static FILE *g_fp;
+static char g_scratch[560];            /* scratch directory of this process (also its working directory) */
+static muggle_socket_t g_sock = MUGGLE_INVALID_SOCKET, g_sp[2] = { MUGGLE_INVALID_SOCKET, MUGGLE_INVALID_SOCKET };
+static char g_port[16];
+
+/* ---------------------------------------------------------------- "the failed call changed nothing"
+ * snapshot of the object (its struct and the arrays it points to) taken right before the operation runs; after a
+ * reported failure every registered region must be byte-for-byte what it was (struct first: when a pointer field
+ * changed the old arrays are not touched any more) */
+static unsigned char g_snapbuf[32768];
+static struct { const void *p; size_t n, off; } g_reg[40];
+static int g_nreg;
+static size_t g_snapoff;
+static void snap_reset(void) { g_nreg = 0; g_snapoff = 0; }
+static void snap_add(const void *p, size_t n)
+{
+	if (!p || !n || g_nreg >= 40 || g_snapoff + n > sizeof(g_snapbuf)) return;
+	memcpy(g_snapbuf + g_snapoff, p, n);
+	g_reg[g_nreg].p = p; g_reg[g_nreg].n = n; g_reg[g_nreg].off = g_snapoff;
+	g_nreg++; g_snapoff += n;
+}
+static int snap_same(void)
+{
+	for (int i = 0; i < g_nreg; i++) if (memcmp(g_reg[i].p, g_snapbuf + g_reg[i].off, g_reg[i].n) != 0) return i + 1;
+	return 0;
+}
+/* reference contents: what the container must hold (data pointers, in order where the container has an order) */
+#define MAX_REF 16
+static const void *g_ref[MAX_REF];
+static int g_nref;
+static int g_stored0;                  /* the operation stored its value (content instances) */
+static void ref_add(const void *p) { if (g_nref < MAX_REF) g_ref[g_nref++] = p; }
+static void ref_add_front(const void *p)
+{
+	if (g_nref >= MAX_REF) return;
+	for (int i = g_nref; i > 0; i--) g_ref[i] = g_ref[i - 1];
+	g_ref[0] = p; g_nref++;
+}
 static void *g_sortarr[5];
 
 static int g_fill;      /* byte the object storage is filled with before the constructor: 0x00 or 0xA5 */
@@ -73,6 +126,13 @@ static void zero_all(void)
 	memset0(&g_alog, 0, sizeof g_alog); memset(&g_ctx2, 0, sizeof g_ctx2); memset0(&g_evpipe, 0, sizeof g_evpipe);
 	memset0(&g_lfh, 0, sizeof g_lfh); memset0(&g_lrh, 0, sizeof g_lrh);
 	memset(&g_lctx, 0, sizeof g_lctx); g_hctx = NULL; g_lfd = g_cfd = g_ufd = -1;
+#if MUGGLE_SUPPORT_FAST_FLOW_CONTROLLER
+	memset0(&g_ffc, 0, sizeof g_ffc);
+#endif
+	memset0(&g_ltr, 0, sizeof g_ltr); memset0(&g_lch, 0, sizeof g_lch); g_fp = NULL;
+	g_sock = g_sp[0] = g_sp[1] = MUGGLE_INVALID_SOCKET;
+	snap_reset(); g_nref = 0; g_stored0 = 0;
+	for (int i = 0; i < 32; i++) g_more[i] = 1000 + i;
 }
 
 /* caller-owned values stored in containers; the destroy callback releases them and is counted */
@@ -120,20 +180,64 @@ static void d_abq(void) { muggle_array_blocking_queue_destroy(&g_abq); }
 /* ---------------------------------------------------------------- memory */
 static int op_mp_init(void) { return muggle_memory_pool_init(&g_mp, 4, 16) ? 1 : 0; }
 static int op_mp_ensure(void) { return muggle_memory_pool_ensure_space(&g_mp, 8) ? 1 : 0; }
+/* blocks handed out by the pool: block i is filled with the byte 0x40 + i */
+static void *g_blk[40];
+static int g_nblk;
+static int mp_take(void)
+{
+	void *b = muggle_memory_pool_alloc(&g_mp);
+	if (!b || g_nblk >= 40) return 0;
+	memset(b, 0x40 + g_nblk, 16);
+	g_blk[g_nblk++] = b;
+	return 1;
+}
 static int pre_mp_full(void)
 {
+	g_nblk = 0;
 	if (!muggle_memory_pool_init(&g_mp, 4, 16)) return 0;
-	for (int i = 0; i < 4; i++) if (!muggle_memory_pool_alloc(&g_mp)) return 0;
+	for (int i = 0; i < 4; i++) if (!mp_take()) return 0;
 	return 1;
 }
+static int pre_mp_empty(void) { g_nblk = 0; return muggle_memory_pool_init(&g_mp, 4, 16) ? 1 : 0; }
 static int pre_mp_capped(void)
 {
+	g_nblk = 0;
 	if (!muggle_memory_pool_init(&g_mp, 4, 16)) return 0;
 	muggle_memory_pool_set_max_delta_cap(&g_mp, 2);
-	for (int i = 0; i < 4; i++) if (!muggle_memory_pool_alloc(&g_mp)) return 0;
+	for (int i = 0; i < 4; i++) if (!mp_take()) return 0;
 	return 1;
 }
-static int op_mp_alloc(void) { return muggle_memory_pool_alloc(&g_mp) != NULL; }
+static int op_mp_alloc(void) { return mp_take(); }
+static void snap_mpool(const muggle_memory_pool_t *mp)
+{
+	if (!mp) return;
+	snap_add(mp, sizeof(*mp));
+	snap_add(mp->memory_pool_data_bufs, sizeof(void *) * mp->num_buf);
+	snap_add(mp->memory_pool_ptr_buf, sizeof(void *) * mp->capacity);
+}
+static void snap_mp(void) { snap_mpool(&g_mp); }
+/* every block handed out so far is distinct, inside the pool and still holds its own pattern */
+static int chk_mp(void)
+{
+	if ((int)g_mp.used != g_nblk) return 0;
+	for (int i = 0; i < g_nblk; i++) {
+		const unsigned char *b = (const unsigned char *)g_blk[i];
+		for (int k = 0; k < 16; k++) if (b[k] != (unsigned char)(0x40 + i)) return 0;
+		for (int j = 0; j < i; j++) if (g_blk[j] == g_blk[i]) return 0;
+	}
+	return 1;
+}
+/* continued use: blocks are taken until the (grown) pool is exactly full - beyond the old capacity -, checked,
+ * then the blocks taken here are given back */
+static int cont_mp(void)
+{
+	int n0 = g_nblk;
+	uint32_t cap = g_mp.capacity;
+	while (g_mp.used < cap) if (!mp_take()) return 0;
+	if (g_mp.capacity != cap || !chk_mp()) return 0;
+	while (g_nblk > n0) muggle_memory_pool_free(&g_mp, g_blk[--g_nblk]);
+	return chk_mp();
+}
 static void d_mp(void) { muggle_memory_pool_destroy(&g_mp); }
 static int op_sowr(void) { return muggle_sowr_memory_pool_init(&g_sowr, 8, 16) == 0; }
 static void d_sowr(void) { muggle_sowr_memory_pool_destroy(&g_sowr); }
@@ -154,11 +258,35 @@ static int op_al_ensure(void) { return muggle_array_list_ensure_capacity(&g_al, 
 static int pre_al_full(void)
 {
 	if (!muggle_array_list_init(&g_al, 4)) return 0;
-	for (int i = 0; i < 4; i++) if (!muggle_array_list_append(&g_al, -1, &g_keys[i])) return 0;
+	for (int i = 0; i < 4; i++) { if (!muggle_array_list_append(&g_al, -1, &g_keys[i])) return 0; ref_add(&g_keys[i]); }
 	return 1;
 }
-static int op_al_append(void) { return muggle_array_list_append(&g_al, -1, &g_keys[4]) != NULL; }
-static int op_al_insert(void) { return muggle_array_list_insert(&g_al, 0, &g_keys[4]) != NULL; }
+static int op_al_append(void) { if (!muggle_array_list_append(&g_al, -1, &g_keys[4])) return 0; ref_add(&g_keys[4]); return 1; }
+static int op_al_insert(void) { if (!muggle_array_list_insert(&g_al, 0, &g_keys[4])) return 0; ref_add_front(&g_keys[4]); return 1; }
+static void snap_al(void) { snap_add(&g_al, sizeof g_al); snap_add(g_al.nodes, sizeof(g_al.nodes[0]) * g_al.capacity); }
+static int chk_al(void)
+{
+	if ((int)muggle_array_list_size(&g_al) != g_nref) return 0;
+	for (int i = 0; i < g_nref; i++) {
+		muggle_array_list_node_t *n = muggle_array_list_index(&g_al, i);
+		if (!n || n->data != g_ref[i]) return 0;
+	}
+	return 1;
+}
+/* continued use: 20 more elements are appended (up to and beyond the old capacity), all are read back by index,
+ * the 20 are removed again and the reference contents compared */
+static int cont_al(void)
+{
+	int n0 = (int)muggle_array_list_size(&g_al);
+	for (int i = 0; i < 20; i++) if (!muggle_array_list_append(&g_al, -1, &g_more[i])) return 0;
+	if ((int)muggle_array_list_size(&g_al) != n0 + 20) return 0;
+	for (int i = 0; i < 20; i++) {
+		muggle_array_list_node_t *n = muggle_array_list_index(&g_al, n0 + i);
+		if (!n || n->data != &g_more[i]) return 0;
+	}
+	for (int i = 19; i >= 0; i--) if (!muggle_array_list_remove(&g_al, n0 + i, NULL, NULL)) return 0;
+	return chk_al();
+}
 static void d_al(void) { muggle_array_list_destroy(&g_al, NULL, NULL); }
 
 static int op_heap_init(void) { return muggle_heap_init(&g_heap, cmp_int, 4) ? 1 : 0; }
@@ -166,10 +294,36 @@ static int op_heap_ensure(void) { return muggle_heap_ensure_capacity(&g_heap, 16
 static int pre_heap_full(void)
 {
 	if (!muggle_heap_init(&g_heap, cmp_int, 4)) return 0;
-	for (int i = 0; i < 4; i++) if (!muggle_heap_insert(&g_heap, &g_keys[i], NULL)) return 0;
+	for (int i = 0; i < 4; i++) { if (!muggle_heap_insert(&g_heap, &g_keys[i], NULL)) return 0; ref_add(&g_keys[i]); }
 	return 1;
 }
-static int op_heap_insert(void) { return muggle_heap_insert(&g_heap, &g_keys[4], NULL) ? 1 : 0; }
+static int op_heap_insert(void) { if (!muggle_heap_insert(&g_heap, &g_keys[4], NULL)) return 0; ref_add(&g_keys[4]); return 1; }
+static void snap_heap(void) { snap_add(&g_heap, sizeof g_heap); snap_add(g_heap.nodes, sizeof(g_heap.nodes[0]) * (g_heap.capacity + 1)); }
+static int g_heap_ref_is_value;        /* the reference holds the stored VALUES (content instance), not the keys */
+static int chk_heap(void)
+{
+	if ((int)g_heap.size != g_nref) return 0;
+	for (int i = 0; i < g_nref; i++) {
+		int found = 0;
+		for (uint64_t k = 1; k <= g_heap.size; k++)
+			if ((g_heap_ref_is_value ? g_heap.nodes[k].value : g_heap.nodes[k].key) == g_ref[i]) found++;
+		if (found != 1) return 0;
+	}
+	return 1;
+}
+/* continued use: 20 smaller keys are inserted (beyond the old capacity); being a min-heap (by cmp) they come out
+ * first, in ascending order; afterwards the reference contents are compared */
+static int g_less[20];
+static int cont_heap(void)
+{
+	muggle_heap_node_t nd;
+	for (int i = 0; i < 20; i++) g_less[i] = -100 + i;
+	for (int i = 0; i < 20; i++) if (!muggle_heap_insert(&g_heap, &g_less[(i * 7) % 20], NULL)) return 0;
+	if ((int)g_heap.size != g_nref + 20) return 0;
+	for (int i = 0; i < 20; i++) { if (!muggle_heap_extract(&g_heap, &nd) || nd.key != &g_less[i]) return 0; }
+	return chk_heap();
+}
+
 static void d_heap(void) { muggle_heap_destroy(&g_heap, NULL, NULL, NULL, NULL); }
 
 static int op_stack_init(void) { return muggle_stack_init(&g_stack, 4) ? 1 : 0; }
@@ -177,61 +331,304 @@ static int op_stack_ensure(void) { return muggle_stack_ensure_capacity(&g_stack,
 static int pre_stack_full(void)
 {
 	if (!muggle_stack_init(&g_stack, 4)) return 0;
-	for (int i = 0; i < 4; i++) if (!muggle_stack_push(&g_stack, &g_keys[i])) return 0;
+	for (int i = 0; i < 4; i++) { if (!muggle_stack_push(&g_stack, &g_keys[i])) return 0; ref_add(&g_keys[i]); }
 	return 1;
 }
-static int op_stack_push(void) { return muggle_stack_push(&g_stack, &g_keys[4]) != NULL; }
+static int op_stack_push(void) { if (!muggle_stack_push(&g_stack, &g_keys[4])) return 0; ref_add(&g_keys[4]); return 1; }
+static void snap_stack(void) { snap_add(&g_stack, sizeof g_stack); snap_add(g_stack.nodes, sizeof(g_stack.nodes[0]) * g_stack.capacity); }
+static int chk_stack(void)
+{
+	if ((int)muggle_stack_size(&g_stack) != g_nref) return 0;
+	for (int i = 0; i < g_nref; i++) if (g_stack.nodes[i].data != g_ref[i]) return 0;
+	if (g_nref && muggle_stack_top(&g_stack)->data != g_ref[g_nref - 1]) return 0;
+	return 1;
+}
+/* continued use: 20 more pushes (up to and beyond the old capacity), popped again in LIFO order, then the reference
+ * contents are compared */
+static int cont_stack(void)
+{
+	int n0 = (int)muggle_stack_size(&g_stack);
+	for (int i = 0; i < 20; i++) if (!muggle_stack_push(&g_stack, &g_more[i])) return 0;
+	if ((int)muggle_stack_size(&g_stack) != n0 + 20) return 0;
+	for (int i = 19; i >= 0; i--) {
+		muggle_stack_node_t *t = muggle_stack_top(&g_stack);
+		if (!t || t->data != &g_more[i]) return 0;
+		muggle_stack_pop(&g_stack, NULL, NULL);
+	}
+	return chk_stack();
+}
 static void d_stack(void) { muggle_stack_destroy(&g_stack, NULL, NULL); }
 
 static int op_avl_init(void) { return muggle_avl_tree_init(&g_avl, cmp_int, 8) ? 1 : 0; }
 static int pre_avl0(void)
 {
+	ref_add(&g_keys[0]);
 	return muggle_avl_tree_init(&g_avl, cmp_int, 0) && muggle_avl_tree_insert(&g_avl, &g_keys[0], NULL);
 }
 static int pre_avl1(void)     /* pool of exactly one node, used up */
 {
+	ref_add(&g_keys[0]);
 	return muggle_avl_tree_init(&g_avl, cmp_int, 1) && muggle_avl_tree_insert(&g_avl, &g_keys[0], NULL);
 }
-static int op_avl_insert(void) { return muggle_avl_tree_insert(&g_avl, &g_keys[1], NULL) != NULL; }
+static int op_avl_insert(void) { if (!muggle_avl_tree_insert(&g_avl, &g_keys[1], NULL)) return 0; ref_add(&g_keys[1]); return 1; }
+static void snap_avl_nodes(const muggle_avl_tree_node_t *n) { if (n) { snap_add(n, sizeof(*n)); snap_avl_nodes(n->left); snap_avl_nodes(n->right); } }
+static void snap_avl(void) { snap_add(&g_avl, sizeof g_avl); snap_mpool(g_avl.pool); snap_avl_nodes(g_avl.root); }
+static int avl_count(const muggle_avl_tree_node_t *n) { return n ? 1 + avl_count(n->left) + avl_count(n->right) : 0; }
+/* the reference holds the KEYS: each is found, nothing else is in the tree */
+static int chk_avl(void)
+{
+	if (avl_count(g_avl.root) != g_nref) return 0;
+	for (int i = 0; i < g_nref; i++) {
+		muggle_avl_tree_node_t *n = muggle_avl_tree_find(&g_avl, (void *)g_ref[i]);
+		if (!n || n->key != g_ref[i]) return 0;
+	}
+	return 1;
+}
+/* continued use: two more keys are inserted and found (a node each; kept until destroy) */
+static int cont_avl(void)
+{
+	for (int i = 0; i < 2; i++) { if (!muggle_avl_tree_insert(&g_avl, &g_more[i], NULL)) return 0; ref_add(&g_more[i]); }
+	return chk_avl();
+}
+/* ... the two extra keys are removed again (trees whose stored values are counted) */
+static int cont_avl_rm(void)
+{
+	int n0 = g_nref;
+	if (!cont_avl()) return 0;
+	for (int i = 0; i < 2; i++) {
+		muggle_avl_tree_node_t *n = muggle_avl_tree_find(&g_avl, &g_more[i]);
+		if (!n) return 0;
+		muggle_avl_tree_remove(&g_avl, n, NULL, NULL, NULL, NULL);
+	}
+	g_nref = n0;
+	return chk_avl();
+}
+/* ... of a tree whose nodes come from its (just grown) pool: one key is removed and inserted again */
+static int cont_avl_pool(void)
+{
+	muggle_avl_tree_node_t *n = muggle_avl_tree_find(&g_avl, &g_keys[0]);
+	if (!n) return 0;
+	muggle_avl_tree_remove(&g_avl, n, NULL, NULL, NULL, NULL);
+	if (!muggle_avl_tree_insert(&g_avl, &g_keys[0], NULL)) return 0;
+	return chk_avl();
+}
 static void d_avl(void) { muggle_avl_tree_destroy(&g_avl, NULL, NULL, NULL, NULL); }
 
 static int op_ht_init(void) { return muggle_hash_table_init(&g_ht, 16, NULL, cmp_str, 8) ? 1 : 0; }
+static const char g_ka[] = "a", g_kb[] = "b", g_kc[] = "c";
 static int pre_ht0(void)
 {
-	return muggle_hash_table_init(&g_ht, 16, NULL, cmp_str, 0) && muggle_hash_table_put(&g_ht, "a", NULL);
+	ref_add(g_ka);
+	return muggle_hash_table_init(&g_ht, 16, NULL, cmp_str, 0) && muggle_hash_table_put(&g_ht, (void *)g_ka, NULL);
 }
-static int op_ht_put(void) { return muggle_hash_table_put(&g_ht, "b", NULL) != NULL; }
+static int op_ht_put(void) { if (!muggle_hash_table_put(&g_ht, (void *)g_kb, NULL)) return 0; ref_add(g_kb); return 1; }
 static int pre_ht1(void)      /* node pool of exactly one node, used up */
 {
-	return muggle_hash_table_init(&g_ht, 16, NULL, cmp_str, 1) && muggle_hash_table_put(&g_ht, "a", NULL);
+	ref_add(g_ka);
+	return muggle_hash_table_init(&g_ht, 16, NULL, cmp_str, 1) && muggle_hash_table_put(&g_ht, (void *)g_ka, NULL);
+}
+static void snap_ht(void)
+{
+	snap_add(&g_ht, sizeof g_ht); snap_mpool(g_ht.pool);
+	snap_add(g_ht.nodes, sizeof(g_ht.nodes[0]) * g_ht.table_size);
+	for (uint64_t i = 0; i < g_ht.table_size; i++)
+		for (muggle_hash_table_node_t *n = g_ht.nodes[i].next; n; n = n->next) snap_add(n, sizeof(*n));
+}
+static int chk_ht(void)      /* the reference holds the KEYS */
+{
+	int cnt = 0;
+	for (uint64_t i = 0; i < g_ht.table_size; i++)
+		for (muggle_hash_table_node_t *n = g_ht.nodes[i].next; n; n = n->next) cnt++;
+	if (cnt != g_nref) return 0;
+	for (int i = 0; i < g_nref; i++) {
+		muggle_hash_table_node_t *n = muggle_hash_table_find(&g_ht, (void *)g_ref[i]);
+		if (!n || n->key != g_ref[i]) return 0;
+	}
+	return 1;
+}
+static int cont_ht(void)
+{
+	for (int i = 0; i < 2; i++) { if (!muggle_hash_table_put(&g_ht, (void *)g_mkeys[i], NULL)) return 0; ref_add(g_mkeys[i]); }
+	return chk_ht();
+}
+static int cont_ht_rm(void)
+{
+	int n0 = g_nref;
+	if (!cont_ht()) return 0;
+	for (int i = 0; i < 2; i++) {
+		muggle_hash_table_node_t *n = muggle_hash_table_find(&g_ht, (void *)g_mkeys[i]);
+		if (!n) return 0;
+		muggle_hash_table_remove(&g_ht, n, NULL, NULL, NULL, NULL);
+	}
+	g_nref = n0;
+	return chk_ht();
+}
+static int cont_ht_pool(void)
+{
+	muggle_hash_table_node_t *n = muggle_hash_table_find(&g_ht, (void *)g_ka);
+	if (!n) return 0;
+	muggle_hash_table_remove(&g_ht, n, NULL, NULL, NULL, NULL);
+	if (!muggle_hash_table_put(&g_ht, (void *)g_ka, NULL)) return 0;
+	return chk_ht();
 }
 static void d_ht(void) { muggle_hash_table_destroy(&g_ht, NULL, NULL, NULL, NULL); }
 
 static int op_ll_init(void) { return muggle_linked_list_init(&g_ll, 8) ? 1 : 0; }
 static int pre_ll0(void)
 {
+	ref_add(&g_keys[0]);
 	return muggle_linked_list_init(&g_ll, 0) && muggle_linked_list_append(&g_ll, NULL, &g_keys[0]);
 }
-static int op_ll_append(void) { return muggle_linked_list_append(&g_ll, NULL, &g_keys[1]) != NULL; }
-static int op_ll_insert(void) { return muggle_linked_list_insert(&g_ll, NULL, &g_keys[1]) != NULL; }
+static int op_ll_append(void) { if (!muggle_linked_list_append(&g_ll, NULL, &g_keys[1])) return 0; ref_add(&g_keys[1]); return 1; }
+static int op_ll_insert(void) { if (!muggle_linked_list_insert(&g_ll, NULL, &g_keys[1])) return 0; ref_add_front(&g_keys[1]); return 1; }
 static int pre_ll1(void)
 {
+	ref_add(&g_keys[0]);
 	return muggle_linked_list_init(&g_ll, 1) && muggle_linked_list_append(&g_ll, NULL, &g_keys[0]);
+}
+static void snap_llist(muggle_linked_list_t *l)
+{
+	snap_add(l, sizeof(*l)); snap_mpool(l->pool);
+	for (muggle_linked_list_node_t *n = muggle_linked_list_first(l); n; n = muggle_linked_list_next(l, n)) snap_add(n, sizeof(*n));
+}
+static void snap_ll(void) { snap_llist(&g_ll); }
+static int chk_ll(void)      /* the reference holds the data pointers, in list order */
+{
+	int i = 0;
+	if ((int)muggle_linked_list_size(&g_ll) != g_nref) return 0;
+	for (muggle_linked_list_node_t *n = muggle_linked_list_first(&g_ll); n; n = muggle_linked_list_next(&g_ll, n), i++)
+		if (i >= g_nref || n->data != g_ref[i]) return 0;
+	if (i != g_nref) return 0;
+	for (muggle_linked_list_node_t *n = muggle_linked_list_last(&g_ll); n; n = muggle_linked_list_prev(&g_ll, n)) i--;
+	return i == 0;
+}
+static int cont_ll(void)
+{
+	for (int i = 0; i < 2; i++) { if (!muggle_linked_list_append(&g_ll, NULL, &g_more[i])) return 0; ref_add(&g_more[i]); }
+	return chk_ll();
+}
+static int cont_ll_rm(void)
+{
+	int n0 = g_nref;
+	if (!cont_ll()) return 0;
+	for (int i = 0; i < 2; i++) {
+		muggle_linked_list_node_t *n = muggle_linked_list_last(&g_ll);
+		if (!n || n->data != &g_more[1 - i]) return 0;
+		muggle_linked_list_remove(&g_ll, n, NULL, NULL);
+	}
+	g_nref = n0;
+	return chk_ll();
+}
+static int cont_ll_pool(void)    /* the last element is removed and appended again (node from the pool, no growth) */
+{
+	muggle_linked_list_node_t *n = muggle_linked_list_last(&g_ll);
+	if (!n) return 0;
+	void *d = n->data;
+	muggle_linked_list_remove(&g_ll, n, NULL, NULL);
+	if (!muggle_linked_list_append(&g_ll, NULL, d)) return 0;
+	return chk_ll();
 }
 static void d_ll(void) { muggle_linked_list_destroy(&g_ll, NULL, NULL); }
 
 static int op_q_init(void) { return muggle_queue_init(&g_q, 8) ? 1 : 0; }
-static int pre_q0(void) { return muggle_queue_init(&g_q, 0) && muggle_queue_enqueue(&g_q, &g_keys[0]); }
-static int op_q_enqueue(void) { return muggle_queue_enqueue(&g_q, &g_keys[1]) != NULL; }
-static int pre_q1(void) { return muggle_queue_init(&g_q, 1) && muggle_queue_enqueue(&g_q, &g_keys[0]); }
+static int pre_q0(void) { ref_add(&g_keys[0]); return muggle_queue_init(&g_q, 0) && muggle_queue_enqueue(&g_q, &g_keys[0]); }
+static int op_q_enqueue(void) { if (!muggle_queue_enqueue(&g_q, &g_keys[1])) return 0; ref_add(&g_keys[1]); return 1; }
+static int pre_q1(void) { ref_add(&g_keys[0]); return muggle_queue_init(&g_q, 1) && muggle_queue_enqueue(&g_q, &g_keys[0]); }
+static void snap_queue(muggle_queue_t *q)
+{
+	snap_add(q, sizeof(*q)); snap_mpool(q->pool);
+	for (muggle_queue_node_t *n = q->head.next; n && n != &q->tail; n = n->next) snap_add(n, sizeof(*n));
+}
+static void snap_q(void) { snap_queue(&g_q); }
+static int chk_q(void)       /* the reference holds the data pointers, front first */
+{
+	int i = 0;
+	if ((int)muggle_queue_size(&g_q) != g_nref) return 0;
+	for (muggle_queue_node_t *n = g_q.head.next; n && n != &g_q.tail; n = n->next, i++)
+		if (i >= g_nref || n->data != g_ref[i]) return 0;
+	if (i != g_nref) return 0;
+	return g_nref == 0 || muggle_queue_front(&g_q)->data == g_ref[0];
+}
+static int cont_q(void)
+{
+	for (int i = 0; i < 2; i++) { if (!muggle_queue_enqueue(&g_q, &g_more[i])) return 0; ref_add(&g_more[i]); }
+	return chk_q();
+}
+/* two more are enqueued, then the queue is cycled: every old element is dequeued and enqueued again until the two
+ * extra ones are at the front, which are dequeued for good */
+static int cont_q_rm(void)
+{
+	int n0 = g_nref;
+	if (!cont_q()) return 0;
+	for (int i = 0; i < n0; i++) {
+		void *d = muggle_queue_front(&g_q)->data;
+		muggle_queue_dequeue(&g_q, NULL, NULL);
+		if (!muggle_queue_enqueue(&g_q, d)) return 0;
+	}
+	for (int i = 0; i < 2; i++) {
+		if (muggle_queue_front(&g_q)->data != &g_more[i]) return 0;
+		muggle_queue_dequeue(&g_q, NULL, NULL);
+	}
+	g_nref = n0;
+	return chk_q();
+}
+static int cont_q_pool(void)     /* the front element is dequeued and enqueued again (node from the pool, no growth) */
+{
+	void *d = muggle_queue_front(&g_q)->data;
+	muggle_queue_dequeue(&g_q, NULL, NULL);
+	if (!muggle_queue_enqueue(&g_q, d)) return 0;
+	for (int i = 0; i + 1 < g_nref; i++) g_ref[i] = g_ref[i + 1];
+	g_ref[g_nref - 1] = d;
+	return chk_q();
+}
 static void d_q(void) { muggle_queue_destroy(&g_q, NULL, NULL); }
 
 static int op_trie_init(void) { return muggle_trie_init(&g_trie, 8) ? 1 : 0; }
 static int pre_trie0(void) { return muggle_trie_init(&g_trie, 0) ? 1 : 0; }
-static int op_trie_insert1(void) { return muggle_trie_insert(&g_trie, "a", &g_keys[0]) != NULL; }
-static int op_trie_insert3(void) { return muggle_trie_insert(&g_trie, "abc", &g_keys[0]) != NULL; }
-static int pre_trie1(void) { return muggle_trie_init(&g_trie, 1) && muggle_trie_insert(&g_trie, "a", &g_keys[0]); }
-static int op_trie_insert_b(void) { return muggle_trie_insert(&g_trie, "b", &g_keys[1]) != NULL; }
+/* the reference holds the KEY strings; g_tval[i] is the data stored under g_ref[i] */
+static const void *g_tval[MAX_REF];
+static void tref_add(const char *k, const void *v) { if (g_nref < MAX_REF) { g_tval[g_nref] = v; g_ref[g_nref++] = k; } }
+static int op_trie_insert1(void) { if (!muggle_trie_insert(&g_trie, "a", &g_keys[0])) return 0; tref_add("a", &g_keys[0]); return 1; }
+static int op_trie_insert3(void) { if (!muggle_trie_insert(&g_trie, "abc", &g_keys[0])) return 0; tref_add("abc", &g_keys[0]); return 1; }
+static int pre_trie1(void) { tref_add("a", &g_keys[0]); return muggle_trie_init(&g_trie, 1) && muggle_trie_insert(&g_trie, "a", &g_keys[0]); }
+static int op_trie_insert_b(void) { if (!muggle_trie_insert(&g_trie, "b", &g_keys[1])) return 0; tref_add("b", &g_keys[1]); return 1; }
+static void snap_trie_nodes(const muggle_trie_node_t *n, int depth)
+{
+	for (int c = 0; c < MUGGLE_TRIE_CHILDREN_SIZE && depth < 4; c++)
+		if (n->children[c]) { snap_add(n->children[c], sizeof(*n)); snap_trie_nodes(n->children[c], depth + 1); }
+}
+static void snap_trie(void) { snap_add(&g_trie, sizeof g_trie); snap_mpool(g_trie.pool); snap_trie_nodes(&g_trie.root, 0); }
+static int trie_count(const muggle_trie_node_t *n, int depth)     /* nodes that carry data */
+{
+	int k = n->data ? 1 : 0;
+	for (int c = 0; c < MUGGLE_TRIE_CHILDREN_SIZE && depth < 6; c++) if (n->children[c]) k += trie_count(n->children[c], depth + 1);
+	return k;
+}
+static int chk_trie(void)
+{
+	int k = 0;
+	for (int c = 0; c < MUGGLE_TRIE_CHILDREN_SIZE; c++) if (g_trie.root.children[c]) k += trie_count(g_trie.root.children[c], 0);
+	if (k != g_nref) return 0;
+	for (int i = 0; i < g_nref; i++) {
+		muggle_trie_node_t *n = muggle_trie_find(&g_trie, (const char *)g_ref[i]);
+		if (!n || n->data != g_tval[i]) return 0;
+	}
+	return 1;
+}
+static int cont_trie(void)
+{
+	for (int i = 0; i < 2; i++) { if (!muggle_trie_insert(&g_trie, g_mkeys[i], &g_more[i])) return 0; tref_add(g_mkeys[i], &g_more[i]); }
+	return chk_trie();
+}
+static int cont_trie_rm(void)
+{
+	int n0 = g_nref;
+	if (!cont_trie()) return 0;
+	for (int i = 0; i < 2; i++) if (!muggle_trie_remove(&g_trie, g_mkeys[i], NULL, NULL)) return 0;
+	g_nref = n0;
+	return chk_trie();
+}
+static int cont_trie_pool(void) { return chk_trie() && muggle_trie_find(&g_trie, "zz") == NULL; }
 static void d_trie(void) { muggle_trie_destroy(&g_trie, NULL, NULL); }
 
 static int op_merge_sort(void)
@@ -242,18 +639,32 @@ static int op_merge_sort(void)
 static void d_none(void) { }
 
 /* ---------------------------------------------------------------- boundary contents (values + free callback) */
+/* the value that a FAILED operation did not store still belongs to the caller, who releases it after destroy
+ * (counted like a release through the callback: every value is released exactly once by someone) */
+static void release_unstored(void) { if (!g_stored0 && g_vals[0]) { g_cb_count++; free(g_vals[0]); g_vals[0] = NULL; } }
 static int pre_trie_c_a(void)
 {
-	return make_vals(2) && muggle_trie_init(&g_trie, 0) && muggle_trie_insert(&g_trie, "a", g_vals[1]);
+	tref_add("a", NULL);
+	if (!(make_vals(2) && muggle_trie_init(&g_trie, 0) && muggle_trie_insert(&g_trie, "a", g_vals[1]))) return 0;
+	g_tval[0] = g_vals[1];
+	return 1;
 }
-static int op_trie_c_empty(void) { return muggle_trie_insert(&g_trie, "", g_vals[0]) != NULL; }
+static int op_trie_c_empty(void)
+{
+	if (!muggle_trie_insert(&g_trie, "", g_vals[0])) return 0;
+	g_stored0 = 1; tref_add("", g_vals[0]);
+	return 1;
+}
 static int pre_trie_c_pool(void)
 {
-	return make_vals(3) && muggle_trie_init(&g_trie, 8) && muggle_trie_insert(&g_trie, "a", g_vals[1]) &&
-		muggle_trie_insert(&g_trie, "ab", g_vals[2]);
+	if (!(make_vals(3) && muggle_trie_init(&g_trie, 8) && muggle_trie_insert(&g_trie, "a", g_vals[1]) &&
+		muggle_trie_insert(&g_trie, "ab", g_vals[2]))) return 0;
+	tref_add("a", g_vals[1]); tref_add("ab", g_vals[2]);
+	return 1;
 }
 static int pre_trie_c_single(void) { return make_vals(1) && muggle_trie_init(&g_trie, 0); }
-static void d_trie_c(void) { muggle_trie_destroy(&g_trie, cb_free_val, NULL); }
+static void d_trie_c(void) { muggle_trie_destroy(&g_trie, cb_free_val, NULL); release_unstored(); }
+/* the empty key lives in root.children[0], which the generic count (children of the root) includes */
 
 static int pre_avl_c(void)
 {
@@ -261,73 +672,127 @@ static int pre_avl_c(void)
 	if (!muggle_avl_tree_insert(&g_avl, &g_keys[1], g_vals[1])) return 0;   /* 20 */
 	if (!muggle_avl_tree_insert(&g_avl, &g_keys[0], g_vals[2])) return 0;   /* 10 */
 	if (!muggle_avl_tree_insert(&g_avl, &g_keys[2], g_vals[3])) return 0;   /* 30 */
+	ref_add(&g_keys[1]); ref_add(&g_keys[0]); ref_add(&g_keys[2]);
 	return muggle_avl_tree_insert(&g_avl, &g_keys[0], NULL) == NULL;          /* duplicate 10: rejected */
 }
 static int g_five = 5;
-static int op_avl_c(void) { return muggle_avl_tree_insert(&g_avl, &g_five, g_vals[0]) != NULL; }
+static int op_avl_c(void)
+{
+	if (!muggle_avl_tree_insert(&g_avl, &g_five, g_vals[0])) return 0;
+	g_stored0 = 1; ref_add(&g_five);
+	return 1;
+}
 static int pre_avl_c_single(void) { return make_vals(1) && muggle_avl_tree_init(&g_avl, cmp_int, 0); }
-static void d_avl_c(void) { muggle_avl_tree_destroy(&g_avl, NULL, NULL, cb_free_val, NULL); }
+static void d_avl_c(void) { muggle_avl_tree_destroy(&g_avl, NULL, NULL, cb_free_val, NULL); release_unstored(); }
 
 static int pre_ht_c(void)
 {
 	if (!make_vals(3) || !muggle_hash_table_init(&g_ht, 16, NULL, cmp_str, 0)) return 0;
-	if (!muggle_hash_table_put(&g_ht, "a", g_vals[1]) || !muggle_hash_table_put(&g_ht, "b", g_vals[2])) return 0;
-	return muggle_hash_table_put(&g_ht, "a", NULL) == NULL;                    /* duplicate: rejected */
+	if (!muggle_hash_table_put(&g_ht, (void *)g_ka, g_vals[1]) || !muggle_hash_table_put(&g_ht, (void *)g_kb, g_vals[2])) return 0;
+	ref_add(g_ka); ref_add(g_kb);
+	return muggle_hash_table_put(&g_ht, (void *)g_ka, NULL) == NULL;           /* duplicate: rejected */
 }
-static int op_ht_c(void) { return muggle_hash_table_put(&g_ht, "c", g_vals[0]) != NULL; }
+static int op_ht_c(void)
+{
+	if (!muggle_hash_table_put(&g_ht, (void *)g_kc, g_vals[0])) return 0;
+	g_stored0 = 1; ref_add(g_kc);
+	return 1;
+}
 static int pre_ht_c_single(void) { return make_vals(1) && muggle_hash_table_init(&g_ht, 16, NULL, cmp_str, 0); }
-static void d_ht_c(void) { muggle_hash_table_destroy(&g_ht, NULL, NULL, cb_free_val, NULL); }
+static void d_ht_c(void) { muggle_hash_table_destroy(&g_ht, NULL, NULL, cb_free_val, NULL); release_unstored(); }
 
 static int pre_ll_c(void)
 {
-	return make_vals(3) && muggle_linked_list_init(&g_ll, 0) && muggle_linked_list_append(&g_ll, NULL, g_vals[1]) &&
-		muggle_linked_list_append(&g_ll, NULL, g_vals[2]);
+	if (!(make_vals(3) && muggle_linked_list_init(&g_ll, 0) && muggle_linked_list_append(&g_ll, NULL, g_vals[1]) &&
+		muggle_linked_list_append(&g_ll, NULL, g_vals[2]))) return 0;
+	ref_add(g_vals[1]); ref_add(g_vals[2]);
+	return 1;
 }
-static int op_ll_c_head(void) { return muggle_linked_list_insert(&g_ll, NULL, g_vals[0]) != NULL; }
+static int op_ll_c_head(void)
+{
+	if (!muggle_linked_list_insert(&g_ll, NULL, g_vals[0])) return 0;
+	g_stored0 = 1; ref_add_front(g_vals[0]);
+	return 1;
+}
 static int pre_ll_c_pool(void)
 {
-	return make_vals(2) && muggle_linked_list_init(&g_ll, 2) && muggle_linked_list_append(&g_ll, NULL, g_vals[1]);
+	if (!(make_vals(2) && muggle_linked_list_init(&g_ll, 2) && muggle_linked_list_append(&g_ll, NULL, g_vals[1]))) return 0;
+	ref_add(g_vals[1]);
+	return 1;
 }
-static int op_ll_c_append(void) { return muggle_linked_list_append(&g_ll, NULL, g_vals[0]) != NULL; }
-static void d_ll_c(void) { muggle_linked_list_destroy(&g_ll, cb_free_val, NULL); }
+static int op_ll_c_append(void)
+{
+	if (!muggle_linked_list_append(&g_ll, NULL, g_vals[0])) return 0;
+	g_stored0 = 1; ref_add(g_vals[0]);
+	return 1;
+}
+static void d_ll_c(void) { muggle_linked_list_destroy(&g_ll, cb_free_val, NULL); release_unstored(); }
 
 static int pre_q_c(void)
 {
-	return make_vals(3) && muggle_queue_init(&g_q, 0) && muggle_queue_enqueue(&g_q, g_vals[1]) &&
-		muggle_queue_enqueue(&g_q, g_vals[2]);
+	if (!(make_vals(3) && muggle_queue_init(&g_q, 0) && muggle_queue_enqueue(&g_q, g_vals[1]) &&
+		muggle_queue_enqueue(&g_q, g_vals[2]))) return 0;
+	ref_add(g_vals[1]); ref_add(g_vals[2]);
+	return 1;
 }
-static int pre_q_c_pool(void) { return make_vals(2) && muggle_queue_init(&g_q, 2) && muggle_queue_enqueue(&g_q, g_vals[1]); }
-static int op_q_c(void) { return muggle_queue_enqueue(&g_q, g_vals[0]) != NULL; }
-static void d_q_c(void) { muggle_queue_destroy(&g_q, cb_free_val, NULL); }
+static int pre_q_c_pool(void)
+{
+	if (!(make_vals(2) && muggle_queue_init(&g_q, 2) && muggle_queue_enqueue(&g_q, g_vals[1]))) return 0;
+	ref_add(g_vals[1]);
+	return 1;
+}
+static int op_q_c(void)
+{
+	if (!muggle_queue_enqueue(&g_q, g_vals[0])) return 0;
+	g_stored0 = 1; ref_add(g_vals[0]);
+	return 1;
+}
+static void d_q_c(void) { muggle_queue_destroy(&g_q, cb_free_val, NULL); release_unstored(); }
 
 static int pre_al_c(int n)
 {
 	if (!make_vals(n + 1) || !muggle_array_list_init(&g_al, 4)) return 0;
-	for (int i = 1; i <= n; i++) if (!muggle_array_list_append(&g_al, -1, g_vals[i])) return 0;
+	for (int i = 1; i <= n; i++) { if (!muggle_array_list_append(&g_al, -1, g_vals[i])) return 0; ref_add(g_vals[i]); }
 	return 1;
 }
 static int pre_al_c3(void) { return pre_al_c(3); }
 static int pre_al_c4(void) { return pre_al_c(4); }
-static int op_al_c_index0(void) { return muggle_array_list_insert(&g_al, 0, g_vals[0]) != NULL; }
-static void d_al_c(void) { muggle_array_list_destroy(&g_al, cb_free_val, NULL); }
+static int op_al_c_index0(void)
+{
+	if (!muggle_array_list_insert(&g_al, 0, g_vals[0])) return 0;
+	g_stored0 = 1; ref_add_front(g_vals[0]);
+	return 1;
+}
+static void d_al_c(void) { muggle_array_list_destroy(&g_al, cb_free_val, NULL); release_unstored(); }
 
 static int pre_heap_c4(void)
 {
 	if (!make_vals(5) || !muggle_heap_init(&g_heap, cmp_int, 4)) return 0;
-	for (int i = 1; i <= 4; i++) if (!muggle_heap_insert(&g_heap, &g_keys[i], g_vals[i])) return 0;
+	g_heap_ref_is_value = 1;
+	for (int i = 1; i <= 4; i++) { if (!muggle_heap_insert(&g_heap, &g_keys[i], g_vals[i])) return 0; ref_add(g_vals[i]); }
 	return 1;
 }
-static int op_heap_c(void) { return muggle_heap_insert(&g_heap, &g_keys[0], g_vals[0]) ? 1 : 0; }
-static void d_heap_c(void) { muggle_heap_destroy(&g_heap, NULL, NULL, cb_free_val, NULL); }
+static int op_heap_c(void)
+{
+	if (!muggle_heap_insert(&g_heap, &g_keys[0], g_vals[0])) return 0;
+	g_stored0 = 1; ref_add(g_vals[0]);
+	return 1;
+}
+static void d_heap_c(void) { muggle_heap_destroy(&g_heap, NULL, NULL, cb_free_val, NULL); release_unstored(); }
 
 static int pre_stack_c3(void)
 {
 	if (!make_vals(4) || !muggle_stack_init(&g_stack, 4)) return 0;
-	for (int i = 1; i <= 3; i++) if (!muggle_stack_push(&g_stack, g_vals[i])) return 0;
+	for (int i = 1; i <= 3; i++) { if (!muggle_stack_push(&g_stack, g_vals[i])) return 0; ref_add(g_vals[i]); }
 	return 1;
 }
-static int op_stack_c(void) { return muggle_stack_push(&g_stack, g_vals[0]) != NULL; }
-static void d_stack_c(void) { muggle_stack_destroy(&g_stack, cb_free_val, NULL); }
+static int op_stack_c(void)
+{
+	if (!muggle_stack_push(&g_stack, g_vals[0])) return 0;
+	g_stored0 = 1; ref_add(g_vals[0]);
+	return 1;
+}
+static void d_stack_c(void) { muggle_stack_destroy(&g_stack, cb_free_val, NULL); release_unstored(); }
 
 /* ---------------------------------------------------------------- event / net / log */
 static int op_sig(void) { return muggle_ev_signal_init(&g_sig) == 0; }
@@ -453,7 +918,8 @@ static int op_alog_log(void)
 {
 	muggle_log_src_loc_t loc = { "c18_driver.c", 1, "op_alog_log" };
 	muggle_logger_t *lg = (muggle_logger_t *)&g_alog;
-	lg->log(lg, MUGGLE_LOG_LEVEL_INFO, &loc, "message %d", 18);
+	if (lg->log != muggle_async_logger_log) return 0;      /* the logger's log entry IS this function */
+	muggle_async_logger_log(lg, MUGGLE_LOG_LEVEL_INFO, &loc, "message %d", 18);
 	return 1; /* void API */
 }
 static void d_alog(void) { muggle_async_logger_destroy((muggle_logger_t *)&g_alog); }
@@ -486,6 +952,143 @@ static int op_lrh_write2(void)
 	return 1; /* failure of the rotation is not reported to the caller of write */
 }
 
+
+/* ---------------------------------------------------------------- entry points added by the coverage obligation */
+static void snap_ev(void) { snap_add(g_ev, sizeof(*g_ev)); snap_llist(g_ev->ctx_list); }
+static int ev_ctx_count(void) { return (int)muggle_linked_list_size(g_ev->ctx_list); }
+static int g_ev_n0;                    /* contexts that must be registered */
+static void snap_ev_n(void) { snap_ev(); g_ev_n0 = ev_ctx_count(); }
+static int chk_ev(void) { return ev_ctx_count() == g_ev_n0; }
+static int op_ev_add_ctx_n(void) { if (!op_ev_add_ctx()) return 0; g_ev_n0++; return 1; }
+static int op_ev_add_ctx2_n(void) { if (!op_ev_add_ctx2()) return 0; g_ev_n0++; return 1; }
+static int cont_ev_add2(void) { return op_ev_add_ctx2_n() && chk_ev(); }
+static int cont_ev_pool(void) { return chk_ev() && muggle_linked_list_last(g_ev->ctx_list)->data == &g_ctx2; }
+
+#if MUGGLE_SUPPORT_FAST_FLOW_CONTROLLER
+static int op_ffc(void) { return muggle_fast_flow_ctl_init(&g_ffc, 1, 4, 0, 1000000000.0) ? 1 : 0; }
+static void d_ffc(void) { muggle_fast_flow_ctl_destroy(&g_ffc); }
+#else
+static int op_ffc(void) { return 0; }
+static void d_ffc(void) { }
+#endif
+
+/* removes every entry below the scratch directory (rotated files carry time stamps in their names) */
+#include <dirent.h>
+#include <sys/stat.h>
+static void rm_below(const char *dir, int depth)
+{
+	DIR *d = opendir(dir);
+	struct dirent *e;
+	char p[900];
+	if (!d) return;
+	while ((e = readdir(d)) != NULL) {
+		if (!strcmp(e->d_name, ".") || !strcmp(e->d_name, "..")) continue;
+		snprintf(p, sizeof(p), "%s/%s", dir, e->d_name);
+		struct stat st;
+		if (lstat(p, &st) == 0 && S_ISDIR(st.st_mode)) { if (depth < 3) rm_below(p, depth + 1); rmdir(p); }
+		else unlink(p);
+	}
+	closedir(d);
+}
+static void fresh_scratch(void) { rm_below(g_scratch, 0); }
+static char g_trpath[640];
+static int op_ltr(void)
+{
+	fresh_scratch();
+	snprintf(g_trpath, sizeof(g_trpath), "%s/trot.log", g_scratch);
+	return muggle_log_file_time_rot_handler_init(&g_ltr, g_trpath, MUGGLE_LOG_TIME_ROTATE_UNIT_SEC, 1, false) == 0;
+}
+static void d_ltr(void) { g_ltr.handler.destroy((muggle_log_handler_t *)&g_ltr); fresh_scratch(); }
+/* two messages stamped 5 and 10 seconds after the handler's period: each write detects the new period and rotates
+ * (fclose, fopen of the file named after the period); a failed re-open leaves the handler without a file */
+static int op_ltr_write2(void)
+{
+	muggle_log_msg_t msg;
+	memset(&msg, 0, sizeof(msg));
+	msg.level = MUGGLE_LOG_LEVEL_INFO;
+	msg.src_loc.file = "c18_driver.c";
+	msg.src_loc.line = 1;
+	msg.src_loc.func = "op_ltr_write2";
+	msg.payload = "time rotating line";
+	msg.ts.tv_sec = g_ltr.last_sec + 5;
+	g_ltr.handler.write((muggle_log_handler_t *)&g_ltr, &msg);
+	msg.ts.tv_sec += 5;
+	g_ltr.handler.write((muggle_log_handler_t *)&g_ltr, &msg);
+	return 1; /* failure of the rotation is not reported to the caller of write */
+}
+static int op_lch(void) { return muggle_log_console_handler_init(&g_lch, 1) == 0; }
+static void d_lch(void) { g_lch.handler.destroy((muggle_log_handler_t *)&g_lch); }
+/* muggle_log_simple_init / muggle_log_complicated_init attach function-local static handlers to the DEFAULT logger;
+ * the library has no call that detaches them again, so "destroy" is: every attached handler's destroy, then the
+ * default logger is emptied (it is a static object of the library) */
+static void d_deflog(void)
+{
+	muggle_logger_t *lg = muggle_logger_default();
+	for (int i = 0; i < lg->cnt; i++) if (lg->handlers[i] && lg->handlers[i]->destroy) lg->handlers[i]->destroy(lg->handlers[i]);
+	lg->cnt = 0; lg->fmt_hint = 0; lg->lowest_log_level = MUGGLE_LOG_LEVEL_FATAL;
+	fresh_scratch();
+}
+static int g_deflog_handlers;          /* handlers attached to the default logger when the operation returned */
+static int op_log_simple(void)
+{
+	fresh_scratch();
+	int r = muggle_log_simple_init(MUGGLE_LOG_LEVEL_FATAL, MUGGLE_LOG_LEVEL_INFO);
+	g_deflog_handlers = muggle_logger_default()->cnt;
+	return r == 0;
+}
+static int op_log_complicated(void)
+{
+	fresh_scratch();
+	int r = muggle_log_complicated_init(MUGGLE_LOG_LEVEL_FATAL, MUGGLE_LOG_LEVEL_INFO, NULL);
+	g_deflog_handlers = muggle_logger_default()->cnt;
+	return r == 0;
+}
+static int op_os_fopen(void)
+{
+	char p[700];
+	fresh_scratch();
+	snprintf(p, sizeof(p), "%s/sub/dir/file.txt", g_scratch);
+	g_fp = muggle_os_fopen(p, "w");
+	return g_fp != NULL;
+}
+static void d_os_fopen(void) { if (g_fp) { fclose(g_fp); g_fp = NULL; } fresh_scratch(); }
+
+/* sockets: loopback only.  g_lfd = a listener made without faults (through muggle_tcp_listen itself) */
+static int pre_listener(void)
+{
+	struct sockaddr_in a;
+	socklen_t al = sizeof(a);
+	g_lfd = muggle_tcp_listen("127.0.0.1", "0", 4);
+	if (g_lfd == MUGGLE_INVALID_SOCKET) return 0;
+	if (getsockname(g_lfd, (struct sockaddr *)&a, &al) != 0) return 0;
+	snprintf(g_port, sizeof(g_port), "%d", (int)ntohs(a.sin_port));
+	return 1;
+}
+static int sock_ok(void) { return g_sock != MUGGLE_INVALID_SOCKET; }
+static int op_socket_create(void) { g_sock = muggle_socket_create(AF_INET, SOCK_STREAM, 0); return sock_ok(); }
+static int op_tcp_listen(void) { g_sock = muggle_tcp_listen("127.0.0.1", "0", 4); return sock_ok(); }
+static int op_tcp_connect(void) { g_sock = muggle_tcp_connect("127.0.0.1", g_port, 2); return sock_ok(); }
+static int op_tcp_bind(void) { g_sock = muggle_tcp_bind("127.0.0.1", "0"); return sock_ok(); }
+static int op_tcp_bind_connect(void) { g_sock = muggle_tcp_bind_connect("127.0.0.1", "0", "127.0.0.1", g_port, 2); return sock_ok(); }
+static int op_udp_bind(void) { g_sock = muggle_udp_bind("127.0.0.1", "0"); return sock_ok(); }
+static int op_udp_connect(void) { g_sock = muggle_udp_connect("127.0.0.1", "9"); return sock_ok(); }
+static int op_mcast_join(void) { g_sock = muggle_mcast_join("239.18.18.18", "23418", NULL, NULL); return sock_ok(); }
+static int op_socketpair(void) { return muggle_socketpair(AF_UNIX, SOCK_STREAM, 0, g_sp) == 0; }
+static void d_sock(void)
+{
+	if (g_sock != MUGGLE_INVALID_SOCKET) { muggle_socket_close(g_sock); g_sock = MUGGLE_INVALID_SOCKET; }
+	if (g_lfd >= 0) { muggle_socket_close(g_lfd); g_lfd = -1; }
+	for (int i = 0; i < 2; i++) if (g_sp[i] != MUGGLE_INVALID_SOCKET) { muggle_socket_close(g_sp[i]); g_sp[i] = MUGGLE_INVALID_SOCKET; }
+}
+static int op_heap_sort(void)
+{
+	for (int i = 0; i < 5; i++) g_sortarr[i] = &g_keys[(i * 3) % 5];
+	if (!muggle_heap_sort(g_sortarr, 5, cmp_int)) return 0;
+	for (int i = 0; i + 1 < 5; i++) if (cmp_int(g_sortarr[i], g_sortarr[i + 1]) == 0) return 0;   /* five distinct keys, all kept */
+	return 1;
+}
+static int op_mar_get(void) { return muggle_ma_ring_thread_ctx_get() != NULL; }
+
 /* ---------------------------------------------------------------- table */
 struct inst {
 	const char *name;
@@ -495,7 +1098,9 @@ struct inst {
 	int dfail;             /* destroy also after a reported failure */
 	int settle;            /* another thread releases: wait until the counts are stable */
 	int nvals;             /* > 0: values stored in the container, released through the counted callback */
-	int retry;             /* a reported failure is followed by a retry without faults ("safe to retry") */
+	void (*snap)(void);    /* registers the object's struct / arrays / nodes right before the operation runs */
+	int (*chk)(void);      /* the container holds exactly the reference contents */
+	int (*cont)(void);     /* continued use after the operation (or its retry) succeeded */
 };
 static const struct inst g_inst[] = {
 	{ "channel_init_mutex", NULL, op_chan_mutex, d_chan, 1, 0 },
@@ -505,8 +1110,8 @@ static const struct inst g_inst[] = {
 	{ "double_buffer_init", NULL, op_db, d_db, 1, 0 },
 	{ "array_blocking_queue_init", NULL, op_abq, d_abq, 1, 0 },
 	{ "memory_pool_init", NULL, op_mp_init, d_mp, 1, 0 },
-	{ "memory_pool_ensure_space", op_mp_init, op_mp_ensure, d_mp, 1, 0 },
-	{ "memory_pool_alloc_grow", pre_mp_full, op_mp_alloc, d_mp, 1, 0 },
+	{ "memory_pool_ensure_space", pre_mp_empty, op_mp_ensure, d_mp, 1, 0, .snap = snap_mp, .chk = chk_mp, .cont = cont_mp },
+	{ "memory_pool_alloc_grow", pre_mp_full, op_mp_alloc, d_mp, 1, 0, .snap = snap_mp, .chk = chk_mp, .cont = cont_mp },
 	{ "sowr_memory_pool_init", NULL, op_sowr, d_sowr, 1, 0 },
 	{ "ts_memory_pool_init", NULL, op_ts, d_ts, 1, 0 },
 	{ "ring_memory_pool_init", NULL, op_rp, d_rp, 1, 0 },
@@ -514,71 +1119,91 @@ static const struct inst g_inst[] = {
 	{ "bytes_buffer_init", NULL, op_bb, d_bb, 1, 0 },
 	{ "flow_ctl_init", NULL, op_fc, d_fc, 1, 0 },
 	{ "array_list_init", NULL, op_al_init, d_al, 1, 0 },
-	{ "array_list_ensure_capacity", op_al_init, op_al_ensure, d_al, 1, 0 },
-	{ "array_list_append_grow", pre_al_full, op_al_append, d_al, 1, 0 },
+	{ "array_list_ensure_capacity", op_al_init, op_al_ensure, d_al, 1, 0, .snap = snap_al, .chk = chk_al, .cont = cont_al },
+	{ "array_list_append_grow", pre_al_full, op_al_append, d_al, 1, 0, .snap = snap_al, .chk = chk_al, .cont = cont_al },
 	{ "avl_tree_init_pool", NULL, op_avl_init, d_avl, 1, 0 },
-	{ "avl_tree_insert", pre_avl0, op_avl_insert, d_avl, 1, 0 },
-	{ "avl_tree_insert_pool_grow", pre_avl1, op_avl_insert, d_avl, 1, 0 },
+	{ "avl_tree_insert", pre_avl0, op_avl_insert, d_avl, 1, 0, .snap = snap_avl, .chk = chk_avl, .cont = cont_avl },
+	{ "avl_tree_insert_pool_grow", pre_avl1, op_avl_insert, d_avl, 1, 0, .snap = snap_avl, .chk = chk_avl, .cont = cont_avl_pool },
 	{ "hash_table_init_pool", NULL, op_ht_init, d_ht, 1, 0 },
-	{ "hash_table_put", pre_ht0, op_ht_put, d_ht, 1, 0 },
+	{ "hash_table_put", pre_ht0, op_ht_put, d_ht, 1, 0, .snap = snap_ht, .chk = chk_ht, .cont = cont_ht },
 	{ "heap_init", NULL, op_heap_init, d_heap, 1, 0 },
-	{ "heap_ensure_capacity", op_heap_init, op_heap_ensure, d_heap, 1, 0 },
-	{ "heap_insert_grow", pre_heap_full, op_heap_insert, d_heap, 1, 0 },
+	{ "heap_ensure_capacity", op_heap_init, op_heap_ensure, d_heap, 1, 0, .snap = snap_heap, .chk = chk_heap, .cont = cont_heap },
+	{ "heap_insert_grow", pre_heap_full, op_heap_insert, d_heap, 1, 0, .snap = snap_heap, .chk = chk_heap, .cont = cont_heap },
 	{ "linked_list_init_pool", NULL, op_ll_init, d_ll, 1, 0 },
-	{ "linked_list_append", pre_ll0, op_ll_append, d_ll, 1, 0 },
+	{ "linked_list_append", pre_ll0, op_ll_append, d_ll, 1, 0, .snap = snap_ll, .chk = chk_ll, .cont = cont_ll },
 	{ "queue_init_pool", NULL, op_q_init, d_q, 1, 0 },
-	{ "queue_enqueue", pre_q0, op_q_enqueue, d_q, 1, 0 },
+	{ "queue_enqueue", pre_q0, op_q_enqueue, d_q, 1, 0, .snap = snap_q, .chk = chk_q, .cont = cont_q },
 	{ "stack_init", NULL, op_stack_init, d_stack, 1, 0 },
-	{ "stack_ensure_capacity", op_stack_init, op_stack_ensure, d_stack, 1, 0 },
-	{ "stack_push_grow", pre_stack_full, op_stack_push, d_stack, 1, 0 },
+	{ "stack_ensure_capacity", op_stack_init, op_stack_ensure, d_stack, 1, 0, .snap = snap_stack, .chk = chk_stack, .cont = cont_stack },
+	{ "stack_push_grow", pre_stack_full, op_stack_push, d_stack, 1, 0, .snap = snap_stack, .chk = chk_stack, .cont = cont_stack },
 	{ "trie_init_pool", NULL, op_trie_init, d_trie, 1, 0 },
-	{ "trie_insert_1", pre_trie0, op_trie_insert1, d_trie, 1, 0 },
-	{ "trie_insert_3", pre_trie0, op_trie_insert3, d_trie, 1, 0 },
+	{ "trie_insert_1", pre_trie0, op_trie_insert1, d_trie, 1, 0, .snap = snap_trie, .chk = chk_trie, .cont = cont_trie },
+	/* a failed multi-byte insert keeps the prefix nodes it created: no byte-for-byte snapshot, contents only */
+	{ "trie_insert_3", pre_trie0, op_trie_insert3, d_trie, 1, 0, .chk = chk_trie, .cont = cont_trie },
 	{ "merge_sort", NULL, op_merge_sort, d_none, 1, 0 },
 	{ "ev_signal_init", NULL, op_sig, d_sig, 1, 0 },
 	{ "evloop_new_epoll", NULL, op_ev_epoll, d_ev, 1, 0 },
 	{ "evloop_new_poll", NULL, op_ev_poll, d_ev, 1, 0 },
 	{ "evloop_new_select", NULL, op_ev_select, d_ev, 1, 0 },
 	{ "evloop_new_epoll_mempool", NULL, op_ev_epoll_pool, d_ev, 1, 0 },
-	{ "evloop_add_ctx", op_ev_epoll, op_ev_add_ctx, d_ev, 1, 0 },
+	{ "evloop_add_ctx", op_ev_epoll, op_ev_add_ctx_n, d_ev, 1, 0, .snap = snap_ev_n, .chk = chk_ev, .cont = cont_ev_add2 },
 	{ "socket_evloop_handle_init", NULL, op_seh_init, d_seh, 1, 0 },
 	{ "socket_evloop_add_ctx", pre_seh_ev, op_seh_add_ctx, d_seh_ev, 1, 0 },
 	{ "async_logger_init", NULL, op_alog_init, d_alog, 0, 1 },
 	{ "async_logger_log", pre_alog, op_alog_log, d_alog_sink, 1, 1 },
 	{ "async_logger_log_filtered", pre_alog_filtered, op_alog_log, d_alog_sink, 1, 1 },
 	{ "channel_init_default", NULL, op_chan_default, d_chan, 1, 0 },
-	{ "array_list_insert_grow", pre_al_full, op_al_insert, d_al, 1, 0 },
-	{ "linked_list_insert", pre_ll0, op_ll_insert, d_ll, 1, 0 },
-	{ "linked_list_append_pool_grow", pre_ll1, op_ll_append, d_ll, 1, 0 },
-	{ "hash_table_put_pool_grow", pre_ht1, op_ht_put, d_ht, 1, 0 },
-	{ "queue_enqueue_pool_grow", pre_q1, op_q_enqueue, d_q, 1, 0 },
-	{ "trie_insert_pool_grow", pre_trie1, op_trie_insert_b, d_trie, 1, 0 },
-	{ "memory_pool_alloc_grow_capped", pre_mp_capped, op_mp_alloc, d_mp, 1, 0 },
-	{ "evloop_add_ctx_poll", op_ev_poll, op_ev_add_ctx, d_ev, 1, 0 },
-	{ "evloop_add_ctx_select", op_ev_select, op_ev_add_ctx, d_ev, 1, 0 },
-	{ "evloop_add_ctx_mempool_grow", pre_ev_pool1, op_ev_add_ctx2, d_ev, 1, 0 },
+	{ "array_list_insert_grow", pre_al_full, op_al_insert, d_al, 1, 0, .snap = snap_al, .chk = chk_al, .cont = cont_al },
+	{ "linked_list_insert", pre_ll0, op_ll_insert, d_ll, 1, 0, .snap = snap_ll, .chk = chk_ll, .cont = cont_ll },
+	{ "linked_list_append_pool_grow", pre_ll1, op_ll_append, d_ll, 1, 0, .snap = snap_ll, .chk = chk_ll, .cont = cont_ll_pool },
+	{ "hash_table_put_pool_grow", pre_ht1, op_ht_put, d_ht, 1, 0, .snap = snap_ht, .chk = chk_ht, .cont = cont_ht_pool },
+	{ "queue_enqueue_pool_grow", pre_q1, op_q_enqueue, d_q, 1, 0, .snap = snap_q, .chk = chk_q, .cont = cont_q_pool },
+	{ "trie_insert_pool_grow", pre_trie1, op_trie_insert_b, d_trie, 1, 0, .snap = snap_trie, .chk = chk_trie, .cont = cont_trie_pool },
+	{ "memory_pool_alloc_grow_capped", pre_mp_capped, op_mp_alloc, d_mp, 1, 0, .snap = snap_mp, .chk = chk_mp, .cont = cont_mp },
+	{ "evloop_add_ctx_poll", op_ev_poll, op_ev_add_ctx_n, d_ev, 1, 0, .snap = snap_ev_n, .chk = chk_ev, .cont = cont_ev_add2 },
+	{ "evloop_add_ctx_select", op_ev_select, op_ev_add_ctx_n, d_ev, 1, 0, .snap = snap_ev_n, .chk = chk_ev, .cont = cont_ev_add2 },
+	{ "evloop_add_ctx_mempool_grow", pre_ev_pool1, op_ev_add_ctx2_n, d_ev, 1, 0, .snap = snap_ev_n, .chk = chk_ev, .cont = cont_ev_pool },
 	{ "socket_evloop_pipe_init", NULL, op_evpipe, d_evpipe, 1, 0 },
 	{ "socket_evloop_on_read_accept", pre_accept, op_accept, d_accept, 1, 0 },
 	{ "socket_evloop_on_wake", pre_wake, op_wake, d_wake, 1, 0 },
 	{ "channel_init_rmutex", NULL, op_chan_rmutex, d_chan, 1, 0 },
-	{ "trie_content_empty_key", pre_trie_c_a, op_trie_c_empty, d_trie_c, 1, 0, 2, 1 },
-	{ "trie_content_empty_key_pool", pre_trie_c_pool, op_trie_c_empty, d_trie_c, 1, 0, 3, 1 },
-	{ "trie_content_single_empty", pre_trie_c_single, op_trie_c_empty, d_trie_c, 1, 0, 1, 1 },
-	{ "avl_tree_content", pre_avl_c, op_avl_c, d_avl_c, 1, 0, 4, 1 },
-	{ "avl_tree_content_single", pre_avl_c_single, op_avl_c, d_avl_c, 1, 0, 1, 1 },
-	{ "hash_table_content", pre_ht_c, op_ht_c, d_ht_c, 1, 0, 3, 1 },
-	{ "hash_table_content_single", pre_ht_c_single, op_ht_c, d_ht_c, 1, 0, 1, 1 },
-	{ "linked_list_content_head", pre_ll_c, op_ll_c_head, d_ll_c, 1, 0, 3, 1 },
-	{ "linked_list_content_pool_full", pre_ll_c_pool, op_ll_c_append, d_ll_c, 1, 0, 2, 1 },
-	{ "queue_content", pre_q_c, op_q_c, d_q_c, 1, 0, 3, 1 },
-	{ "queue_content_pool_full", pre_q_c_pool, op_q_c, d_q_c, 1, 0, 2, 1 },
-	{ "array_list_content_index0_full", pre_al_c3, op_al_c_index0, d_al_c, 1, 0, 4, 1 },
-	{ "array_list_content_index0_grow", pre_al_c4, op_al_c_index0, d_al_c, 1, 0, 5, 1 },
-	{ "heap_content_grow", pre_heap_c4, op_heap_c, d_heap_c, 1, 0, 5, 1 },
-	{ "stack_content_full", pre_stack_c3, op_stack_c, d_stack_c, 1, 0, 4, 1 },
+	{ "trie_content_empty_key", pre_trie_c_a, op_trie_c_empty, d_trie_c, 1, 0, 2, .snap = snap_trie, .chk = chk_trie, .cont = cont_trie_rm },
+	{ "trie_content_empty_key_pool", pre_trie_c_pool, op_trie_c_empty, d_trie_c, 1, 0, 3, .snap = snap_trie, .chk = chk_trie, .cont = cont_trie_pool },
+	{ "trie_content_single_empty", pre_trie_c_single, op_trie_c_empty, d_trie_c, 1, 0, 1, .snap = snap_trie, .chk = chk_trie, .cont = cont_trie_rm },
+	{ "avl_tree_content", pre_avl_c, op_avl_c, d_avl_c, 1, 0, 4, .snap = snap_avl, .chk = chk_avl, .cont = cont_avl_rm },
+	{ "avl_tree_content_single", pre_avl_c_single, op_avl_c, d_avl_c, 1, 0, 1, .snap = snap_avl, .chk = chk_avl, .cont = cont_avl_rm },
+	{ "hash_table_content", pre_ht_c, op_ht_c, d_ht_c, 1, 0, 3, .snap = snap_ht, .chk = chk_ht, .cont = cont_ht_rm },
+	{ "hash_table_content_single", pre_ht_c_single, op_ht_c, d_ht_c, 1, 0, 1, .snap = snap_ht, .chk = chk_ht, .cont = cont_ht_rm },
+	{ "linked_list_content_head", pre_ll_c, op_ll_c_head, d_ll_c, 1, 0, 3, .snap = snap_ll, .chk = chk_ll, .cont = cont_ll_rm },
+	{ "linked_list_content_pool_full", pre_ll_c_pool, op_ll_c_append, d_ll_c, 1, 0, 2, .snap = snap_ll, .chk = chk_ll, .cont = cont_ll_pool },
+	{ "queue_content", pre_q_c, op_q_c, d_q_c, 1, 0, 3, .snap = snap_q, .chk = chk_q, .cont = cont_q_rm },
+	{ "queue_content_pool_full", pre_q_c_pool, op_q_c, d_q_c, 1, 0, 2, .snap = snap_q, .chk = chk_q, .cont = cont_q_pool },
+	{ "array_list_content_index0_full", pre_al_c3, op_al_c_index0, d_al_c, 1, 0, 4, .snap = snap_al, .chk = chk_al, .cont = cont_al },
+	{ "array_list_content_index0_grow", pre_al_c4, op_al_c_index0, d_al_c, 1, 0, 5, .snap = snap_al, .chk = chk_al, .cont = cont_al },
+	{ "heap_content_grow", pre_heap_c4, op_heap_c, d_heap_c, 1, 0, 5, .snap = snap_heap, .chk = chk_heap, .cont = cont_heap },
+	{ "stack_content_full", pre_stack_c3, op_stack_c, d_stack_c, 1, 0, 4, .snap = snap_stack, .chk = chk_stack, .cont = cont_stack },
 	{ "log_file_handler_init", NULL, op_lfh, d_lfh, 1, 0 },
 	{ "log_file_rotate_handler_init", NULL, op_lrh, d_lrh, 1, 0 },
 	{ "log_file_rotate_handler_write_rotate", op_lrh, op_lrh_write2, d_lrh, 1, 0 },
+	/* entry points added by the coverage obligation */
+	{ "fast_flow_ctl_init", NULL, op_ffc, d_ffc, 1, 0 },
+	{ "log_file_time_rot_handler_init", NULL, op_ltr, d_ltr, 1, 0 },
+	{ "log_file_time_rot_handler_write_rotate", op_ltr, op_ltr_write2, d_ltr, 1, 0 },
+	{ "log_console_handler_init", NULL, op_lch, d_lch, 1, 0 },
+	{ "log_simple_init", NULL, op_log_simple, d_deflog, 1, 0 },
+	{ "log_complicated_init", NULL, op_log_complicated, d_deflog, 1, 0 },
+	{ "socket_create", NULL, op_socket_create, d_sock, 1, 0 },
+	{ "tcp_listen", NULL, op_tcp_listen, d_sock, 1, 0 },
+	{ "tcp_connect", pre_listener, op_tcp_connect, d_sock, 1, 0 },
+	{ "tcp_bind", NULL, op_tcp_bind, d_sock, 1, 0 },
+	{ "tcp_bind_connect", pre_listener, op_tcp_bind_connect, d_sock, 1, 0 },
+	{ "udp_bind", NULL, op_udp_bind, d_sock, 1, 0 },
+	{ "udp_connect", NULL, op_udp_connect, d_sock, 1, 0 },
+	{ "mcast_join", NULL, op_mcast_join, d_sock, 1, 0 },
+	{ "socketpair", NULL, op_socketpair, d_sock, 1, 0 },
+	{ "heap_sort", NULL, op_heap_sort, d_none, 1, 0 },
+	{ "ma_ring_thread_ctx_get", NULL, op_mar_get, d_mar, 1, 1 },
+	{ "os_fopen", NULL, op_os_fopen, d_os_fopen, 1, 0 },
 };
 #define N_INST ((int)(sizeof(g_inst) / sizeof(g_inst[0])))
 
@@ -595,7 +1220,8 @@ static void on_alarm(int sig)
 	_exit(7);
 }
 
-static void case_begin(void) { cur = NULL; nks = 0; have_faults = 0; g_fill = 0; alarm(4); }
+static int g_mode_retry;
+static void case_begin(void) { cur = NULL; nks = 0; have_faults = 0; g_fill = 0; g_mode_retry = 0; alarm(4); }
 
 static void case_line(char *line)
 {
@@ -605,6 +1231,8 @@ static void case_line(char *line)
 	if (strcmp(w, "inst") == 0) {
 		if (sscanf(line + off, "%127s %d", name, &id) < 1) return;
 		for (int i = 0; i < N_INST; i++) if (strcmp(g_inst[i].name, name) == 0) cur = &g_inst[i];
+	} else if (strcmp(w, "mode") == 0) {
+		if (sscanf(line + off, "%63s", w) == 1 && strcmp(w, "retry") == 0) g_mode_retry = 1;
 	} else if (strcmp(w, "fill") == 0) {
 		unsigned v = 0;
 		if (sscanf(line + off, "%x", &v) == 1) g_fill = (int)(v & 0xff);
@@ -616,41 +1244,62 @@ static void case_line(char *line)
 	}
 }
 
+static int live_now(void) { return fi_live_blocks() + fi_live_fds() + fi_live_files(); }
 static void case_end(void)
 {
 	if (!cur || !have_faults) { printf("?\n"); alarm(0); return; }
 	zero_all();
-	g_cb_count = 0;
+	g_cb_count = 0; g_heap_ref_is_value = 0; g_nblk = 0; memset(g_vals, 0, sizeof g_vals);
 	fi_begin();
 	if (cur->pre && !cur->pre()) { printf("pre FAILED\n"); fi_end(); alarm(0); return; }
 	if (cur->settle) fi_settle();
-	printf("pre live=%d\n", fi_live_blocks() + fi_live_fds() + fi_live_files());
+	int base = live_now();
+	printf("pre live=%d\n", base);
+	if (cur->snap) cur->snap();
+	if (cur->chk && !cur->chk()) { printf("pre FAILED (reference contents)\n"); fi_end(); alarm(0); return; }
 	fi_arm(ks, nks);
 	int ok = cur->op();
 	int att = fi_calls();
 	fi_disarm();
 	if (cur->settle) fi_settle();
-	printf("op rc=%s att=%d live=%d\n", ok ? "ok" : "fail", att, fi_live_blocks() + fi_live_fds() + fi_live_files());
+	printf("op rc=%s att=%d live=%d\n", ok ? "ok" : "fail", att, live_now());
 	fflush(stdout);
-	if (!ok && cur->retry) {
-		ok = cur->op();
-		printf("retry rc=%s\n", ok ? "ok" : "fail");
+	if (!ok) {
+		/* "the failed call changed nothing": struct, arrays, nodes byte for byte; contents element for element */
+		int reg = snap_same();
+		if (reg) printf("unchanged NO (region %d of the object differs from its snapshot)\n", reg);
+		else if (cur->chk && !cur->chk()) printf("unchanged NO (contents differ from the reference)\n");
+		else printf("unchanged yes\n");
+		fflush(stdout);
+		if (g_mode_retry) {
+			ok = cur->op();
+			printf("retry rc=%s\n", ok ? "ok" : "fail");
+			fflush(stdout);
+		}
+	}
+	if (ok && cur->cont) {
+		if (cur->chk && !cur->chk()) printf("cont rc=fail (contents differ from the reference before the continued use)\n");
+		else {
+			int c = cur->cont();
+			printf("cont rc=%s live=%d\n", c ? "ok" : "fail", live_now());
+		}
 		fflush(stdout);
 	}
 	if (ok || cur->dfail) {
 		cur->destroy();
 		if (cur->settle) fi_settle();
 		if (cur->nvals > 0)
-			printf("destroy live=%d freed=%d\n", fi_live_blocks() + fi_live_fds() + fi_live_files(), g_cb_count);
+			printf("destroy live=%d freed=%d\n", live_now(), g_cb_count);
 		else
-			printf("destroy live=%d\n", fi_live_blocks() + fi_live_fds() + fi_live_files());
+			printf("destroy live=%d\n", live_now());
 	} else {
-		printf("destroy skipped live=%d\n", fi_live_blocks() + fi_live_fds() + fi_live_files());
+		printf("destroy skipped live=%d\n", live_now());
 	}
 	fi_end();
 	alarm(0);
 }
 
+static void bye(void) { if (chdir("/") == 0) { rm_below(g_scratch, 0); rmdir(g_scratch); } }
 int main(void)
 {
 	signal(SIGALRM, on_alarm);
@@ -662,6 +1311,11 @@ int main(void)
 		char *sl = strrchr(exe, '/');
 		if (sl) *sl = 0;
 		snprintf(g_logpath, sizeof(g_logpath), "%s/c18_scratch_%d.log", exe, (int)getpid());
+		/* scratch directory = working directory (muggle_log_simple_init writes below "log/" of the cwd) */
+		snprintf(g_scratch, sizeof(g_scratch), "%s/c18_scratch_%d.d", exe, (int)getpid());
+		mkdir(g_scratch, 0700);
+		if (chdir(g_scratch) != 0) return 3;
+		atexit(bye);
 	}
 	if (pipe(g_pipe) != 0) return 3;
 	/* ma_ring: small rings, consumer thread running for the whole process */
